@@ -204,6 +204,55 @@ def nested_chain_family(sr, rng, fuse=True, values="int"):
     return out
 
 
+def hash_twin_family(sr, rng):
+    """Fused arrays whose sub-sector tables differ only by labels with EQUAL Python hash()
+    (hash(-1) == hash(-2), hence hash((-1, -2)) == hash((-2, -1))): A lacks every sector whose
+    first two charges are (p, q), B lacks (q, p), C has both; fused over the first two axes the
+    tables agree in everything but those keys."""
+    from . import gen
+    from . import refsym as R
+
+    sym = rng.choice(["U1", "U1", "U1U1"])
+    if sym == "U1":
+        p_, q_ = -1, -2
+        others = [0, 1]
+    else:
+        p_, q_ = rng.choice([((-1, 0), (-2, 0)), ((0, -1), (0, -2)), ((-1, -2), (-2, -1)), ((-1, 1), (-2, 1))])
+        others = [(0, 0), (1, 0)]
+    d = rng.randint(1, 2)
+    dual0 = rng.random() < 0.5
+    tab = {p_: d, q_: d}
+    if rng.random() < 0.5:
+        tab[others[0]] = rng.randint(1, 2)
+    tab = dict(sorted(tab.items()))
+    i0 = (tab, dual0)
+    i1 = (dict(tab), dual0)
+    rest = [({c: rng.randint(1, 2) for c in rng.sample(gen.POOL[sym], 2)}, rng.random() < 0.5) for _ in range(rng.randint(1, 2))]
+    ferm = rng.random() < 0.3
+    seedv = rng.getrandbits(40)
+    out = []
+    for tag, lacking in (("hashtwin-A", [(p_, q_)]), ("hashtwin-B", [(q_, p_)]), ("hashtwin-C", [])):
+        r2 = random.Random(seedv)
+        idx = [sr.BlockIndex(dict(sorted(cm.items())), dual=dl) for cm, dl in [i0, i1] + rest]
+        # total charge: that of a sector with first two charges (p, q) - also valid for (q, p)
+        tail = [sorted(ix.chargemap)[0] for ix in idx[2:]]
+        ch = R.sector_charge(sym, [p_, q_] + tail, [ix.dual for ix in idx])
+        secs = [s_ for s_ in gen.all_sectors(sym, idx, ch) if (s_[0], s_[1]) not in lacking]
+        if len(secs) < 2:
+            continue
+        vals = gen.Values(r2, "int")
+        blocks = {s_: vals(tuple(ix.chargemap[c] for ix, c in zip(idx, s_))) for s_ in secs}
+        cls, extra, _ = gen.pick_class(sr, r2, sym, ferm, kind="static")
+        kw = dict(indices=idx, charge=ch, blocks=blocks, **extra)
+        if ferm and R.par(sym, ch):
+            kw["oddpos"] = 19
+        try:
+            out.append((tag, cls(**kw).fuse((0, 1))))
+        except Exception:
+            pass
+    return out
+
+
 def stripped_twin(sr, x):
     """Same charge tables, directions, sectors and block values, but every fused leg replaced
     by a plain index (no sub-index information). None if x has no fused leg."""
@@ -254,6 +303,8 @@ def make_ops(sr, seed, n):
     arrays += subindex_twins(sr, rng)
     arrays += prefused_extent_family(sr, rng)
     arrays += nested_chain_family(sr, rng)
+    if rng.random() < 0.6:
+        arrays += hash_twin_family(sr, rng)
     twins = {}
     for tag, x in list(arrays):
         t = stripped_twin(sr, x)
